@@ -1,6 +1,6 @@
 """C12 - NIST SP 800-22 statistics: embedded tables, table/consumer consistency, minimum sizes, cusum sign invariant."""
 from __future__ import annotations
-import ast, math
+import ast, math, re
 from fractions import Fraction
 from pcstatic import sym, fold, regions, refmath
 from pcstatic.core import Incomplete
@@ -49,6 +49,20 @@ def tol_of(text):
   return 10.0 ** (e - d)
 
 
+def unclamp(p):
+  """min(1, max(0, x)) / max(0, min(1, x)) -> x: clamping to [0, 1] is the identity on the values a p-value formula denotes."""
+  while True:
+    a = p.as_atom()
+    if a is None or a.kind not in ("min", "max") or len(a.args) != 2:
+      return p
+    want = 1.0 if a.kind == "min" else 0.0
+    ivs = [interval(x) for x in a.args]
+    hit = [i for i, iv in enumerate(ivs) if iv == (want, want)]
+    if len(hit) != 1:
+      return p
+    p = as_poly(a.args[1 - hit[0]])
+
+
 def run(ctx):
   tier = ctx.tier
   rule_tables(ctx, tier)
@@ -61,6 +75,9 @@ def run(ctx):
   rule_template(ctx)
   rule_universal(ctx)
   rule_excursion_gate(ctx)
+  rule_bits(ctx)
+  rule_range(ctx)
+  ctx.expect("R-C12-BITS", 2, "entry count + digit mapping")
   ctx.expect("R-C12-UNIVERSAL", 2, "statistic + p-value")
   ctx.expect("R-C12-TEMPLATE", 3, "border test, default set, validation")
   ctx.expect("R-C12-LADDER", 3, "loop condition, guard agreement, matrix shape")
@@ -1006,7 +1023,7 @@ def rule_formula(ctx):
       (p1, a1), (p2, a2) = chain
       zero1 = (isinstance(p1, Const) and isinstance(p1.v, (int, float)) and p1.v == 0) or (isinstance(p1, Poly) and p1.is_zero())
       okr = zero1 and p2 is not None and a1 is not None and as_poly(p2) == as_poly(a1) and a2 is not None and \
-          ratfun.equal_terms(as_poly(ret[0][1]), _c(1) + _td(as_poly(a2), _c(2)))[0]
+          ratfun.equal_terms(unclamp(as_poly(ret[0][1])), _c(1) + _td(as_poly(a2), _c(2)))[0]
     ctx.record(R, f.where, "p = 1 + (series1 + series2) / 2  [erf form of 2.13.4]", okr, "one accumulator: starts at 0, carries series 1 into series 2, p = 1 + total / 2, with t = z / sqrt(2n) inlined in every term" if okr else
                "the two series are not accumulated from 0 into p = 1 + total / 2")
   # ---- RandomWalk: excursion statistics (at the sinks)
@@ -1458,3 +1475,346 @@ def rule_excursion_gate(ctx, R="R-C12-MINSIZE"):
     probs.append("excursion and variant sub-tests not both found")
   ctx.record(R, f.where, "excursion sub-tests only with at least 500 cycles", not probs, "; ".join(sorted(set(probs))) or
              "%d sub-test families: every p-value is appended under J >= c with c >= 500" % n_s)
+
+
+# ------------------------------------------------------------------ BITS (the +-1 expansion consumed by RandomWalk / Spectral)
+def rule_bits(ctx):
+  """util.Bits(seq, length) has exactly `length` entries for every seq >= 0: the number of padding entries plus the number of digits written is `length`.
+  Lengths are computed on the walker's values; the only arithmetic fact used is len(format(s, 'b')) = max(1, s.bit_length()) for s >= 0."""
+  R = "R-C12-BITS"
+  repo = ctx.repo
+  f = repo.func("randomness_tests.util", "Bits")
+  w = sym.Walker(repo, f)
+  w.run()
+  where = f.where
+  rets = [e for e in w.events if e.kind == "return"]
+  if len(rets) != 1 or rets[0].data["value"] is None or isinstance(rets[0].data["value"], (Const, Seq, tuple)):
+    ctx.incomplete(R, where, "entries", "Bits does not return one array value on a single path")
+    return
+  seqp, lenp = [P("param", q) for q in f.params()[:2]]
+  v = as_poly(rets[0].data["value"])
+  while True:
+    a = v.as_atom()
+    if a is not None and a.kind == "mut" and len(a.args) >= 2 and repr(a.args[1]) == "lit('reverse')":
+      v = as_poly(a.args[0])
+      continue
+    break
+
+  def digits(x):
+    """length of a bytes/str value derived from format(seq, 'b') by length-preserving operations; None when unknown."""
+    a = as_poly(x).as_atom() if not isinstance(x, (Const, Seq, tuple)) else None
+    if isinstance(x, Const) and isinstance(x.v, (bytes, str)):
+      return Poly.const(len(x.v))
+    if a is None:
+      return None
+    if a.kind == "pm" and repr(a.args[1]) in ("lit('translate')",):
+      return digits(a.args[0])
+    if a.kind == "bytes" and a.args:
+      return digits(a.args[0])
+    if a.kind == "mcall" and repr(a.args[1]) in ("lit('encode')", "lit('translate')"):
+      return digits(a.args[0])
+    if a.kind == "format" and len(a.args) == 2 and repr(a.args[1]) == 'lit("\'b\'")' and as_poly(a.args[0]) == seqp:
+      return Poly.atom(Atom("ndigits"))
+    return None
+
+  def entries(p):
+    """number of entries of an array-valued polynomial: array atoms replaced by their literal length, len(<digits>) by the digit count."""
+    out = p
+    for a in list(p.all_atoms()):
+      if a.kind == "extcall" and repr(a.args[0]) == "lit('array.array')":
+        init = a.args[2] if len(a.args) > 2 else None
+        ia = as_poly(init).as_atom() if init is not None and not isinstance(init, (Const, Seq, tuple)) else None
+        if ia is None or ia.kind != "seq":
+          return None
+        out = out.deep_subst(a, Poly.const(len(ia.args)))
+      elif a.kind == "len" and a.args:
+        d = digits(a.args[0])
+        if d is not None:
+          out = out.deep_subst(a, d)
+    return out
+
+  total = entries(v)
+  grown = []
+  for e in w.events:
+    if e.kind == "call" and e.data["name"] in ("meth:frombytes", "meth:extend", "meth:fromlist") and e.data.get("recv") is not None \
+       and not isinstance(e.data["recv"], (Const, Seq, tuple)) and as_poly(e.data["recv"]) == v and e.data["args"]:
+      grown.append(digits(e.data["args"][0]))
+  if total is None or any(g is None for g in grown):
+    ctx.incomplete(R, where, "entries", "length of the returned array is not expressible from its pieces")
+    return
+  for g in grown:
+    total = total + g
+  bad = None
+  isbl = lambda a: a.kind == "bitlen" and len(a.args) == 1 and as_poly(a.args[0]) == seqp
+  left = [a for a in (total - lenp).atoms() if not (a.kind == "ndigits" or isbl(a))]
+  if (total - lenp).is_zero():
+    ok, det = True, "padding entries + digits written = length identically"
+  elif left:
+    ctx.incomplete(R, where, "entries", "entry count %r has terms outside {length, digits, bit_length}" % (total,))
+    return
+  else:
+    ok = True
+    for bl in (0, 1, 2, 7, 64):
+      r = (total - lenp).deep_subst(Atom("ndigits"), Poly.const(max(1, bl)))
+      for a in list(r.all_atoms()):
+        if isbl(a):
+          r = r.deep_subst(a, Poly.const(bl))
+      if not r.is_zero():
+        ok, bad = False, bl
+        break
+    det = "padding entries + digits written = length for every bit length" if ok else \
+          "for seq of bit length %d (format(seq, 'b') has %d digit(s)) the array has %r entries, not length" % (bad, max(1, bad), total)
+  ctx.record(R, where, "exactly `length` entries", ok, det)
+  # digits: '0' -> -1, '1' -> +1, padding (leading zeros) -1, least significant bit first
+  tabs = [e for e in w.events if e.kind == "call" and e.data["name"] == "meth:maketrans" and len(e.data["args"]) == 2 and all(isinstance(x, Const) for x in e.data["args"])]
+  pads = [a for a in v.all_atoms() if a.kind == "extcall" and repr(a.args[0]) == "lit('array.array')"]
+  ok2 = False
+  det2 = "digit translation table not found"
+  if len(tabs) == 1 and len(pads) == 1:
+    src, dst = tabs[0].data["args"][0].v, tabs[0].data["args"][1].v
+    code = repr(pads[0].args[1])
+    padv = [as_poly(x).as_int() for x in as_poly(pads[0].args[2]).as_atom().args]
+    mp = dict(zip(src, dst)) if isinstance(src, bytes) and isinstance(dst, bytes) and len(src) == len(dst) else {}
+    signed = lambda b_: b_ - 256 if b_ > 127 else b_
+    ok2 = code == 'lit("\'b\'")' and mp.get(ord("0")) is not None and signed(mp[ord("0")]) == -1 and signed(mp.get(ord("1"), 0)) == 1 and padv == [-1]
+    rev = as_poly(rets[0].data["value"]).as_atom()
+    ok2 = ok2 and rev is not None and rev.kind == "mut"
+    det2 = "'0' -> -1, '1' -> +1, leading zeros -1, reversed to least-significant-first" if ok2 else "digit mapping is not 0 -> -1 / 1 -> +1 with -1 padding, reversed"
+  ctx.record(R, where, "digits map to -1 / +1", ok2, det2)
+
+
+# ------------------------------------------------------------------ RANGE (every returned p-value lies in [0, 1])
+INF = float("inf")
+RANGE01_EXT = {"scipy.special.gammaincc": "regularised upper incomplete gamma Q(a, x)", "scipy.stats.binom.cdf": "binomial distribution function",
+               "scipy.stats.norm.cdf": "normal distribution function", "scipy.stats.chi2.sf": "chi-square survival function"}
+
+
+def _imul(a, b):
+  c = []
+  for x in a:
+    for y in b:
+      c.append(0.0 if (x == 0 or y == 0) else x * y)
+  return (min(c), max(c))
+
+
+def interval(x, depth=0):
+  """(lo, hi) enclosure of a walker value over the reals; opaque values are (-inf, inf).  Facts used: ranges of abs, sqrt, len, erf, erfc, exp,
+  min / max, literal floats, and BitCount(bits) / n in [0, 1] for a bit string of length n (the precondition of every test)."""
+  if isinstance(x, Const):
+    return (float(x.v), float(x.v)) if isinstance(x.v, (int, float)) and not isinstance(x.v, bool) else (-INF, INF)
+  if isinstance(x, (Seq, tuple)) or x is None or depth > 12:
+    return (-INF, INF)
+  p = as_poly(x)
+  lo = hi = 0.0
+  for mono, c in p.t.items():
+    m = (float(c), float(c))
+    for a, e in mono:
+      ia = atom_interval(a, depth + 1)
+      if e % 2 == 0:
+        l_, h_ = ia
+        big = max(abs(l_), abs(h_))
+        small = 0.0 if l_ <= 0 <= h_ else min(abs(l_), abs(h_))
+        ia = (small ** e, big ** e if big != INF else INF)
+      else:
+        ia = (ia[0] ** e if ia[0] != -INF else -INF, ia[1] ** e if ia[1] != INF else INF)
+      m = _imul(m, ia)
+    lo += m[0]
+    hi += m[1]
+  return (lo, hi)
+
+
+def atom_interval(a, depth=0):
+  k = a.kind
+  if k == "lit" and a.args and isinstance(a.args[0], str):
+    try:
+      v = float(a.args[0].strip("'\""))
+      return (v, v)
+    except ValueError:
+      return (-INF, INF)
+  if k in ("abs", "math.fabs"):
+    l_, h_ = interval(a.args[0], depth)
+    return (0.0 if l_ <= 0 <= h_ else min(abs(l_), abs(h_)), max(abs(l_), abs(h_)))
+  if k == "math.sqrt":
+    l_, h_ = interval(a.args[0], depth)
+    return (math.sqrt(l_) if l_ > 0 and l_ != INF else 0.0, math.sqrt(h_) if 0 <= h_ != INF else INF)
+  if k in ("len", "bitlen"):
+    return (0.0, INF)
+  if k == "math.erf":
+    return (-1.0, 1.0)
+  if k == "math.erfc":
+    l_, h_ = interval(a.args[0], depth)
+    return (0.0, 1.0) if l_ >= 0 else (0.0, 2.0)
+  if k == "math.exp":
+    return (0.0, INF)
+  if k == "pow" and len(a.args) == 2:
+    b = interval(a.args[0], depth)
+    return (0.0, INF) if b[0] >= 0 else (-INF, INF)
+  if k in ("min", "max") and a.args:
+    ivs = [interval(x, depth) for x in a.args if not (isinstance(x, Poly) and x.as_atom() is not None and x.as_atom().kind == "kw")]
+    f_ = min if k == "min" else max
+    return (f_(i[0] for i in ivs), f_(i[1] for i in ivs))
+  if k == "tdiv" and len(a.args) == 2:
+    num, den = a.args
+    na = as_poly(num).as_atom()
+    if na is not None and na.kind == "call" and repr(na.args[0]).endswith(":BitCount')") and len(na.args) == 2:
+      return (0.0, 1.0) if repr(as_poly(den)) in ("param('n')", "param('length')", "param('m')", "param('block_size')") else (0.0, INF) if interval(den, depth)[0] > 0 else (-INF, INF)
+    n_, d_ = interval(num, depth), interval(den, depth)
+    if d_[0] > 0 or d_[1] < 0:
+      inv = (1.0 / d_[1] if d_[1] not in (INF, -INF) else 0.0, 1.0 / d_[0] if d_[0] not in (INF, -INF) else 0.0)
+      return _imul(n_, (min(inv), max(inv)))
+    if d_[0] >= 0:          # divisor >= 0 (division by zero is C18's business): the sign of the numerator is kept
+      return (0.0 if n_[0] >= 0 else -INF, 0.0 if n_[1] <= 0 else INF)
+    return (-INF, INF)
+  if k == "extcall" and a.args and repr(a.args[0]).startswith("lit('") and repr(a.args[0])[5:-2] in RANGE01_EXT:
+    return (0.0, 1.0)
+  if k == "call" and a.args and repr(a.args[0]).endswith((":BitCount')", ":Runs')")):
+    return (0.0, INF)
+  if k == "param" and a.args and a.args[0] in ("n", "length", "m", "block_size"):
+    return (0.0, INF)       # lengths
+  return (-INF, INF)
+
+
+def nonneg(x):
+  """x >= 0 from the interval facts, after taking out the monomial common to all terms (so that 2 s pi - 2 s pi^2 is seen as 2 s pi (1 - pi))."""
+  if interval(x)[0] >= 0:
+    return True
+  p = as_poly(x)
+  if len(p.t) < 2:
+    return False
+  common = None
+  for mono in p.t:
+    d = dict(mono)
+    common = d if common is None else {a: min(e, d[a]) for a, e in common.items() if a in d}
+  if not common:
+    return False
+  for a, e in common.items():
+    if e % 2 and atom_interval(a)[0] < 0:
+      return False
+  rest = {}
+  for mono, c in p.t.items():
+    d = dict(mono)
+    for a, e in common.items():
+      d[a] -= e
+    key = tuple(sorted(((a, e) for a, e in d.items() if e), key=lambda z: repr(z[0])))
+    rest[key] = rest.get(key, 0) + c
+  return interval(Poly(rest))[0] >= 0
+
+
+def rule_range(ctx):
+  """Every p-value handed back by a registered test comes out of a primitive whose range is [0, 1] (incomplete gamma, distribution functions,
+  erfc of a non-negative argument, a table of probabilities), from another function held to the same rule, or is clamped; a p-value assembled by
+  free floating-point arithmetic (1 - sum of differences of distribution functions) can leave [0, 1] by truncation and rounding."""
+  R = "R-C12-RANGE"
+  repo = ctx.repo
+  rs = repo.mod("randomness_tests.random_test_suite")
+  todo = []
+  for nm in ("NIST_TESTS", "EXTENDED_NIST_TESTS"):
+    node = rs.consts.get(nm)
+    if not isinstance(node, ast.List):
+      raise Incomplete("%s is not a literal list" % nm, rs.short)
+    for e in node.elts:
+      r = repo.resolve_expr(rs, e.elts[0]) if isinstance(e, ast.Tuple) and e.elts else None
+      if not hasattr(r, "where"):
+        raise Incomplete("%s entry does not resolve to a function" % nm, rs.short)
+      if r not in todo:
+        todo.append(r)
+  seen = set()
+  nfun = 0
+  while todo:
+    f = todo.pop(0)
+    if f.where in seen:
+      continue
+    seen.add(f.where)
+    nfun += 1
+    w = sym.Walker(repo, f)
+    w.run()
+    sinks = []
+
+    def add(v, e):
+      if isinstance(v, Seq):
+        if len(v.items) == 2 and (isinstance(v.items[0], Const) or "fstr" in repr(v.items[0])[:12] or "lit(" in repr(v.items[0])[:6] or "format" in repr(v.items[0])[:8]):
+          sinks.append((v.items[1], e))
+        else:
+          for it in v.items:
+            add(it, e)
+        return
+      if v is None or isinstance(v, tuple):
+        return
+      if not isinstance(v, Const):
+        a = as_poly(v).as_atom()
+        if a is not None and a.kind == "map":
+          add(a.args[0] if isinstance(a.args[0], Seq) else as_poly(a.args[0]), e)
+          return
+        if a is not None and a.kind == "seq" and len(a.args) == 2:
+          sinks.append((as_poly(a.args[1]), e))
+          return
+        if a is not None and a.kind in ("sym", "mut"):
+          return                # a list assembled by the appends collected below
+      sinks.append((v, e))
+
+    for e in w.events:
+      if e.kind == "return" and e.node is not None and not (isinstance(e.data["value"], Const) and e.data["value"].v is None):
+        add(e.data["value"], e)
+      if e.kind == "mutate" and e.data["method"] == "append" and e.data["args"] and isinstance(e.data["args"][0], Seq) and len(e.data["args"][0].items) == 2:
+        add(e.data["args"][0], e)
+    done = set()
+    for v, e in sinks:
+      key = (id(e.node), re.sub(r"#\d+|u\(\d+\)|bv\('\w+'\)", "#", repr(v)))
+      if key in done:
+        continue
+      done.add(key)
+      line = getattr(e.node, "lineno", 0)
+      con = "p-value at line %d" % line
+      con = "p-value `%s`" % norm(e.node)[:70] if e.node is not None else con
+      if isinstance(v, Const):
+        ok = isinstance(v.v, (int, float)) and 0 <= v.v <= 1
+        ctx.record(R, f.where, con, ok, "constant %r" % (v.v,))
+        continue
+      a = as_poly(v).as_atom()
+      if a is not None and a.kind == "call" and isinstance(a.args[0], Poly) and a.args[0].as_atom() is not None and a.args[0].as_atom().kind == "lit" and ":" in str(a.args[0].as_atom().args[0]):
+        tgt = str(a.args[0].as_atom().args[0])
+        modn, fn = tgt.split(":")
+        try:
+          g = repo.func(modn, fn)
+        except Exception:
+          g = None
+        if g is None:
+          ctx.incomplete(R, f.where, con, "delegates to %s, which does not resolve" % tgt)
+          continue
+        todo.append(g)
+        ctx.ok(R, f.where, con, "delegates to %s (held to the same rule)" % tgt)
+        continue
+      if a is not None and a.kind == "idx" and isinstance(a.args[0], Poly) and a.args[0].as_atom() is not None and a.args[0].as_atom().kind == "ref":
+        ref = str(a.args[0].as_atom().args[0])
+        modn, _, cn = ref.rpartition(".")
+        tab = None
+        try:
+          tab = fold.try_fold(repo.mod(modn).consts.get(cn))
+        except Exception:
+          tab = None
+        if not isinstance(tab, (list, tuple)) or not tab:
+          ctx.incomplete(R, f.where, con, "table %s cannot be folded" % ref)
+          continue
+        bad = [t for t in tab if not (isinstance(t, (int, float)) and 0 <= t <= 1)]
+        ctx.record(R, f.where, con, not bad, "entry of %s: all %d entries in [0, 1]" % (cn, len(tab)) if not bad else "table %s has entries outside [0, 1]: %r" % (cn, bad[:3]))
+        continue
+      lo, hi = interval(v)
+      if a is not None and a.kind == "math.erfc":
+        arg = as_poly(a.args[0])
+        # erfc(|x| / scale): the numerator chain must be non-negative; a scale whose sign is not derivable is reported with the verdict
+        num, scales = arg, []
+        while num.as_atom() is not None and num.as_atom().kind == "tdiv":
+          scales.append(as_poly(num.as_atom().args[1]))
+          num = as_poly(num.as_atom().args[0])
+        okn = nonneg(num)
+        unproved = [s_ for s_ in scales if not nonneg(s_)]
+        if okn:
+          ctx.ok(R, f.where, con, "erfc of a non-negative quotient |x| / scale" + ("" if not unproved else " (scale taken as positive: %s)" % "; ".join(repr(s_)[:60] for s_ in unproved)))
+        else:
+          ctx.violation(R, f.where, con, "erfc is applied to a value that can be negative (%s): the result ranges over [0, 2]" % repr(num)[:120])
+        continue
+      if lo >= 0 and hi <= 1:
+        ctx.ok(R, f.where, con, "enclosed in [%g, %g] by construction" % (lo, hi))
+      else:
+        ctx.violation(R, f.where, con, "assembled by floating-point arithmetic with enclosure [%g, %g] and not clamped: truncation of the series and rounding can take it outside [0, 1] (%s)" % (lo, hi, repr(v)[:100]))
+  ctx.note("R-C12-RANGE followed %d functions from the registry" % nfun)
